@@ -83,13 +83,18 @@ CHECKS = {
     },
     "C08": {
         "level": "fault_enumeration",
-        "parts": [{"gen": "C08", "quick": 3200, "thorough": 64000}],
+        "parts": [{"gen": "C08", "quick": 3200, "thorough": 64000}, {"gen": "C08udp", "quick": 3000, "thorough": 60000}],
         "rule": "one run = one (protocol, cipher, tcp/tls/ws/wss) cell, a canary flow before the faults (must pass, else the run does not count), then a sequence of faults from the catalogue "
                 "(every fault alone in the first 40 seeds of each block of 80, sequences of 2-5, thorough -8, in the rest): connect-and-close against client or server, stalled local SOCKS5/HTTP handshake, "
                 "partial TLS ClientHello / partial WebSocket upgrade / garbage / nothing sent to the server and held open, garbage then close, flows to refused / unresolvable / black-holed targets, "
                 "flows reset by application or target in mid-transfer, accept() failing with EMFILE on the client's or server's listener. The stalled connections stay open while a fresh canary SOCKS5 echo flow "
-                "must be served within 60 simulated seconds; listeners must still be bound and no main() may have returned. non-trivial = canary passed before the faults; distinct = (fault multiset, cell, poll order).",
-        "real": REAL_SYSTEM, "stub": STUB_SYSTEM + ["attacker connections (harness)"], "assumptions": ASSUME_SYSTEM + ["UDP faults are covered by the UDP checks"],
+                "must be served within 60 simulated seconds; listeners must still be bound and no main() may have returned. non-trivial = canary passed before the faults; distinct = (fault multiset, cell, poll order). "
+                "Datagram part (generator C08udp): one run = one UDP-capable cell (Shadowsocks over udp x 7 ciphers with / without users, VMess over tcp/tls/ws/wss, Trojan over tls/wss), a canary datagram exchange, then 1-5 (thorough -8) datagram faults: "
+                "malformed local SOCKS5-UDP datagrams (12 shapes: empty, short, FRAG != 0, unknown address types with >= 5 bytes, truncated addresses, bad names), random / replayed / bit-flipped / truncated / empty datagrams to the server's port, "
+                "unresolvable and closed-port targets, a datagram too large to forward, a target that answers with 65507 bytes, send_to failing once on client or server, bind failing once for a new association / binding, the carrier connection of VMess / Trojan refused or reset, "
+                "idle periods past the 300 s / 600 s table expiries. Afterwards a fresh local application (new socket, new binding / session) and the application that was served before the faults must both get an echo within 60 simulated seconds, "
+                "the UDP sockets of client and server must still be bound and no main() may have returned.",
+        "real": REAL_SYSTEM, "stub": STUB_SYSTEM + ["attacker connections (harness)"], "assumptions": ASSUME_SYSTEM + ["in the datagram part a canary datagram is repeated every 5 simulated seconds (a datagram sent while a carrier connection is being re-made may be lost legitimately)"],
     },
     "C02": {
         "level": "exploration",
